@@ -154,9 +154,24 @@ structure Env where
   mainPid : Nat := 2
   /-- `JobList::last_async_pid` (0 = none yet) -/
   lastAsync : Nat := 0
+  /-- variable contexts of the function calls in progress, innermost first (`VariableSet::contexts`
+      above the base context); `vars` is the base (global) context -/
+  ctxs : List (List (String × Var)) := []
   deriving Repr
 
-def Env.getVar (env : Env) (name : String) : Option Var := env.vars.lookup name
+/-- the innermost function context that has the name -/
+def lookupCtxs : List (List (String × Var)) → String → Option Var
+  | [], _ => none
+  | c :: cs, n =>
+    match c.lookup n with
+    | some v => some v
+    | none => lookupCtxs cs n
+
+/-- `VariableSet::get`: the visible variable — innermost context first, the base context last -/
+def Env.getVar (env : Env) (name : String) : Option Var :=
+  match lookupCtxs env.ctxs name with
+  | some v => some v
+  | none => env.vars.lookup name
 
 /-- `VariableSet::get(name).and_then(|v| v.value)` -/
 def Env.getValue (env : Env) (name : String) : Option Value :=
@@ -172,13 +187,33 @@ def setVar : List (String × Var) → String → Var → List (String × Var)
   | [], n, v => [(n, v)]
   | (m, w) :: t, n, v => if m = n then (m, v) :: t else (m, w) :: setVar t n v
 
-/-- `get_or_create_variable(name, Global).assign(value)`; `none` = read-only -/
+/-- replace the variable in the innermost function context that has the name (`none`: no context has it) -/
+def setInCtxs : List (List (String × Var)) → String → Var → Option (List (List (String × Var)))
+  | [], _, _ => none
+  | c :: cs, n, v =>
+    match c.lookup n with
+    | some _ => some (setVar c n v :: cs)
+    | none => (setInCtxs cs n v).map (c :: ·)
+
+/-- `get_or_create_variable(name, Scope::Global).assign(value)`: the visible variable of that name
+    receives the value wherever it lives; if there is none, the variable is created in the base
+    (global) context — never in the context of a function call in progress.  `none` = read-only. -/
 def Env.assign (env : Env) (name : String) (value : List Char) : Option Env :=
   match env.getVar name with
   | some v =>
     if v.readOnly then none
-    else some { env with vars := setVar env.vars name { v with value := some (.scalar value) } }
+    else
+      let v' : Var := { v with value := some (.scalar value) }
+      match setInCtxs env.ctxs name v' with
+      | some cs => some { env with ctxs := cs }
+      | none => some { env with vars := setVar env.vars name v' }
   | none => some { env with vars := setVar env.vars name { value := some (.scalar value), readOnly := false } }
+
+/-- entering a function: `push_context(Regular)` and the local variables it declares -/
+def Env.pushCtx (env : Env) (locals : List (String × Var)) : Env := { env with ctxs := locals :: env.ctxs }
+
+/-- returning from a function: the guard of `push_context` pops the context -/
+def Env.popCtx (env : Env) : Env := { env with ctxs := env.ctxs.tail }
 
 /-! ## Phrase -/
 
